@@ -10,3 +10,11 @@ fn string_into_bytes(s: String) -> (r: Vec<u8>)
 fn string_from_utf8_or_lossy(b: Vec<u8>) -> (r: String)
     ensures valid_utf8(b@) ==> encode_utf8(r@) == b@,
 { match String::from_utf8(b) { Ok(out) => out, Err(e) => String::from_utf8_lossy(&e.into_bytes()).into_owned() } }
+
+// std's ASCII classification of bytes (so that a rewrite of the byte tests in terms of these methods is still decided)
+pub assume_specification[ u8::is_ascii_control ](b: &u8) -> (r: bool)
+    ensures r == (*b < 0x20 || *b == 0x7f);
+pub assume_specification[ u8::is_ascii_whitespace ](b: &u8) -> (r: bool)
+    ensures r == (*b == 0x20 || *b == 0x09 || *b == 0x0a || *b == 0x0c || *b == 0x0d);
+pub assume_specification[ u8::is_ascii_graphic ](b: &u8) -> (r: bool)
+    ensures r == (0x21 <= *b && *b <= 0x7e);
